@@ -583,14 +583,22 @@ fn encode_args(
         }
         let arg = args_iter.next().expect("function arity already checked");
 
-        let arg_bit = match &arg.value {
-            LowerArg::Raw(raw) if raw.is_reg => current_param_mask_bit,
-            LowerArg::Local { .. } => current_param_mask_bit,
+        let arg_is_reg = match &arg.value {
+            LowerArg::Raw(raw) if raw.is_reg => true,
+            LowerArg::Local { .. } => true,
             LowerArg::DiffSwitch { .. } => panic!("should be handled earlier"),
-            _ => 0,
+            _ => false,
         };
+        let arg_bit = if arg_is_reg { current_param_mask_bit } else { 0 };
         // Verify this arg even applies to the param mask...
         if enc.contributes_to_param_mask() {
+            if current_param_mask_bit == 0 && arg_is_reg {
+                // (the bit was shifted out; without a mask bit the register would be read back as a constant)
+                return Err(emitter.emit(error!(
+                    message("too many arguments in instruction!"),
+                    primary(arg, "register in parameter {} or later", raw::ParamMask::BITS + 1),
+                )));
+            }
             if enc.is_always_immediate() && arg_bit != 0 {
                 // Warn if a register is used for an immediate arg
                 emitter.emit(warning!(
